@@ -877,6 +877,8 @@ class Exec:
             return obj.member(n.attr)
         if isinstance(obj, EnumVal) and n.attr == "value":
             return obj.value
+        if isinstance(obj, EnumVal) and n.attr == "name":
+            return obj.name
         if isinstance(obj, Namespace):
             return obj.get(n.attr)
         if hasattr(obj, "hv_getattr"):
